@@ -20,6 +20,7 @@ import (
 	"go/format"
 	"go/types"
 	"strconv"
+	"strings"
 )
 
 // TypesMap is a map of input types to function names.
@@ -74,8 +75,19 @@ func (tm *typesMap) TypeString(typ types.Type) string {
 }
 
 func (tm *typesMap) FieldStrings(fields []*types.Var) ([]string, error) {
-	strct := types.NewStruct(fields, nil)
-	strctStr, err := format.Source([]byte("var a " + tm.TypeString(strct)))
+	if len(fields) == 0 {
+		return nil, nil
+	}
+	// One field per line, so that gofmt keeps the struct on several lines whatever the number of fields.
+	lines := make([]string, len(fields))
+	for i, field := range fields {
+		if field.Embedded() {
+			lines[i] = tm.TypeString(field.Type())
+		} else {
+			lines[i] = field.Name() + " " + tm.TypeString(field.Type())
+		}
+	}
+	strctStr, err := format.Source([]byte("var a struct {\n" + strings.Join(lines, "\n") + "\n}"))
 	if err != nil {
 		return nil, err
 	}
